@@ -102,10 +102,16 @@ pub(super) fn write_ht(
         sent += 1;
     }
 
+    // Wait for every write; a failed page write must fail the sync (and not be fsynced over).
+    let mut result = Ok(());
     while sent > 0 {
-        io_handle.recv().unwrap();
+        let complete = io_handle.recv().unwrap();
+        if let Err(e) = complete.result {
+            result = Err(e);
+        }
         sent -= 1;
     }
+    result?;
 
     #[cfg(feature = "verif")]
     let _vg = crate::verif::pre(
